@@ -72,7 +72,8 @@ class MessageProtocolEntity(ProtocolEntity):
 
             if self.offline is not None:
                attribs["offline"] = "1" if self.offline else "0"
-            if self.notify:
+            if self.notify is not None:
+                # an empty push name is still a push name
                 attribs["notify"] = self.notify
             if self.retry is not None:
                 attribs["retry"] = str(self.retry)
